@@ -6,6 +6,7 @@ CONSTANTS
   PatchKinds = {"plain2", "plain7", "bytes"}
   FnLayouts = {"none"}
   EndSyms = {FALSE}
+  NoSyms = {FALSE}
   AnnModes = {"none"}
   WithProxyDel = FALSE
   CfiLayouts = {"none"}
